@@ -47,7 +47,7 @@ C12 = dict(
         "C12_finish_appends_one_end", "C12_declared_locals_exact", "C12_type_table_invariant", "C12_build_step_exact", "C12_function_section_exact",
         "C12_built_function_emitted", "C12_agree_is_equality", "C12_checker_sound_first_build",
         "C12_build_needs_balance", "C12_base_balanced", "C12_D08_build_panics_after_conversion"]],
-    quick=dict(n=1500), thorough=dict(n=30000), per_shard=150,
+    quick=dict(n=1000), thorough=dict(n=30000), per_shard=100,
     rule="generated valid base modules (1-3 pairwise distinct function types, 0-3 imports of four kinds, 1-3 local functions with declared local groups and optional names) and histories of 1-6 operations: "
          "FunctionBuilder::new with random signatures (0-3 params, 0-2 results over i32 i64 f32 f64 v128 funcref externref (ref func) (ref extern), a quarter of them a signature already in the type section), "
          "0-5 locals through add_local (declared before and in the middle of the body, repeated types), bodies of up to ~70 instructions from a typed generator through 100 different Opcode / MacroOpcode helpers "
